@@ -50,3 +50,36 @@ func (e *Encoder) VerifState() (hasReturnedError bool, colorType ColorType, prev
 // VerifSetNumAddsRemaining overrides numAddsRemaining (so that the end of a
 // huge image can be reached without millions of AddN calls).
 func (e *Encoder) VerifSetNumAddsRemaining(n uint32) { e.numAddsRemaining = n }
+
+// The functions below run one unexported method of Encoder on a scratch
+// Encoder whose relevant private state is given by the arguments, and return
+// the bytes written to buf[0:bufIndex] together with the state afterwards
+// (per-function correspondence with the /verif model).
+
+// VerifEmitBits runs emitBits(0, v, n) with the bit accumulator (bitsV, bitsN).
+func VerifEmitBits(bitsV uint32, bitsN uint32, v uint32, n uint32) (out []byte, bitsV2 uint32, bitsN2 uint32) {
+	e := &Encoder{}
+	e.bitsV, e.bitsN = bitsV, bitsN
+	k := e.emitBits(0, v, n)
+	return append([]byte(nil), e.buf[:k]...), e.bitsV, e.bitsN
+}
+
+// VerifEmitHuffmanRun runs emitHuffmanRun(0, whichHuffman, zeroesRunLength,
+// value) with the bit accumulator (bitsV, bitsN).
+func VerifEmitHuffmanRun(bitsV uint32, bitsN uint32, whichHuffman int, zeroesRunLength uint32, value int32) (out []byte, bitsV2 uint32, bitsN2 uint32) {
+	e := &Encoder{}
+	e.bitsV, e.bitsN = bitsV, bitsN
+	k := e.emitHuffmanRun(0, whichHuffman, zeroesRunLength, value)
+	return append([]byte(nil), e.buf[:k]...), e.bitsV, e.bitsN
+}
+
+// VerifEncodeBlock runs encodeBlock(0, whichComponent, b) with the given bit
+// accumulator, DC predictors and quantization factors.
+func VerifEncodeBlock(bitsV uint32, bitsN uint32, prevDC [3]int16, quants *Array2QuantizationFactors, whichComponent byte, b *BlockI16) (out []byte, bitsV2 uint32, bitsN2 uint32, prevDC2 [3]int16) {
+	e := &Encoder{}
+	e.bitsV, e.bitsN = bitsV, bitsN
+	e.prevDC = prevDC
+	e.quants = *quants
+	k := e.encodeBlock(0, whichComponent, b)
+	return append([]byte(nil), e.buf[:k]...), e.bitsV, e.bitsN, e.prevDC
+}
